@@ -406,8 +406,8 @@ Definition valid_reply (hdr_len : nat) (action txid : N) (data : bytes) : Prop :
 Definition connect_buf : nat := N.to_nat connect_rx_buf_len.
 Definition announce_buf : nat := N.to_nat rx_buf_len.
 
-Lemma buf_values : connect_buf = 16%nat /\ announce_buf = N.to_nat 8192.
-Proof. split; reflexivity. Qed.
+Lemma connect_buf_value : connect_buf = 16%nat.
+Proof. reflexivity. Qed.
 
 Lemma connect_accept txid ans n fs payload :
   connect_exchange txid ans = (n, Ok (fs, payload)) ->
@@ -616,28 +616,30 @@ Proof.
   - intros Hm. apply peers_ragged. exact Hm.
 Qed.
 
-(** OPEN FINDING (class oversize-reply-truncated): a reply longer than the 8192-byte receive buffer
-    is cut silently — (8192 - 20) is a multiple of both 6 and 18 — so peers beyond the 1362nd
-    (454th for IPv6) are lost although the reply is accepted. *)
-Definition oversize (d : bytes) : Prop := (announce_buf < length d)%nat.
+(** UDP: the length field of a datagram is 16 bits and counts the 8-byte UDP header, so no payload
+    exceeds 65527 bytes (65507 over IPv4, whose header takes another 20). This is the bound every
+    datagram a socket can deliver satisfies; it is a fact about UDP, used as a named hypothesis. *)
+Definition max_udp_payload : nat := N.to_nat 65527.
+Definition udp_deliverable (d : bytes) : Prop := (length d <= max_udp_payload)%nat.
 
-Definition oversize_witness : bytes :=
-  be 4 1 ++ be 4 7 ++ repeat 0 12 ++ repeat 1 (N.to_nat 8178).   (* 20 + 1363 * 6 bytes *)
-
-Lemma oversize_loses_peers :
-  exists d l, oversize d /\ valid_reply 20 1 7 d /\ ((length d - 20) mod 6 = 0)%nat /\
-    r_result (session 5 7 (repeat 0 20) (repeat 0 20) 6881 false
-                [Some (be 4 0 ++ be 4 5 ++ be 8 99)] [Some d]) = Ok l /\
-    (length l < (length d - 20) / 6)%nat.
+(** the receive buffer (RX_BUF_LEN, regenerated from the source) holds any such datagram *)
+Lemma buffer_holds_any_datagram : (max_udp_payload <= announce_buf)%nat.
 Proof.
-  exists oversize_witness.
-  eexists. split; [|split; [|split; [|split]]].
-  4:{ vm_compute. reflexivity. }
-  4:{ apply Nat.ltb_lt. vm_compute. reflexivity. }
-  - unfold oversize. apply Nat.ltb_lt. vm_compute. reflexivity.
-  - unfold valid_reply. split; [apply Nat.leb_le; vm_compute; reflexivity|]. split; vm_compute; reflexivity.
-  - vm_compute. reflexivity.
+  unfold max_udp_payload, announce_buf.
+  assert (H : 65527 <= rx_buf_len) by (vm_compute; discriminate).
+  lia.
 Qed.
+
+Lemma deliverable_fits d : udp_deliverable d -> firstn announce_buf d = d.
+Proof.
+  intros H. apply fits_buffer. unfold udp_deliverable in H.
+  pose proof buffer_holds_any_datagram as Hb. lia.
+Qed.
+
+(** what would happen beyond the buffer (no UDP datagram gets there): the client sees a prefix *)
+Lemma beyond_buffer_truncated (d : bytes) :
+  (announce_buf <= length d)%nat -> length (firstn announce_buf d) = announce_buf.
+Proof. intros H. apply firstn_length_le. exact H. Qed.
 
 (* ================================================================ what is printed *)
 
@@ -664,21 +666,37 @@ Proof.
     + intros H. congruence.
 Qed.
 
-(* ================================================================ known class and instances *)
+(* ================================================================ headline and instances *)
 
-(** outside the known class the peers are exactly the records of the whole accepted datagram *)
-Lemma session_exact_unless_oversize txid1 txid2 ih pid port v6 ans1 ans2 i1 d1 i2 d2 :
-  ~ oversize d2 ->
+(** for every datagram UDP can deliver: valid connect and announce replies yield exactly the
+    records of the whole announce reply *)
+Lemma session_exact txid1 txid2 ih pid port v6 ans1 ans2 i1 d1 i2 d2 :
+  udp_deliverable d2 ->
   first_answer ans1 = Some (i1, d1) -> (i1 < 3)%nat -> valid_reply 16 0 txid1 (firstn connect_buf d1) ->
   first_answer ans2 = Some (i2, d2) -> (i2 < 3)%nat -> valid_reply 20 1 txid2 d2 ->
   ((length d2 - 20) mod stride v6 = 0)%nat ->
   r_result (session txid1 txid2 ih pid port v6 ans1 ans2) =
     Ok (map (record (stride v6)) (chunks (stride v6) (skipn 20 d2))).
 Proof.
-  intros Hn Hf1 Hi1 Hv1 Hf2 Hi2 Hv2 Hm. unfold oversize in Hn.
+  intros Hu Hf1 Hi1 Hv1 Hf2 Hi2 Hv2 Hm. unfold udp_deliverable in Hu.
+  pose proof buffer_holds_any_datagram as Hb.
   destruct (session_complete txid1 txid2 ih pid port v6 ans1 ans2 i1 d1 i2 d2 Hf1 Hi1 Hv1 Hf2 Hi2 Hv2 ltac:(lia))
     as (_ & _ & _ & H & _).
   exact (H Hm).
+Qed.
+
+(** and conversely nothing but those records, stated on the datagram itself *)
+Lemma session_peers_deliverable txid1 txid2 ih pid port v6 ans1 ans2 l :
+  (forall i d, first_answer ans2 = Some (i, d) -> udp_deliverable d) ->
+  r_result (session txid1 txid2 ih pid port v6 ans1 ans2) = Ok l ->
+  exists i d, first_answer ans2 = Some (i, d) /\ (i < 3)%nat /\
+    valid_reply 20 1 txid2 d /\
+    (length (skipn 20 d) mod stride v6 = 0)%nat /\
+    l = map (record (stride v6)) (chunks (stride v6) (skipn 20 d)).
+Proof.
+  intros Hu H. destruct (session_peers _ _ _ _ _ _ _ _ _ H) as (i & d & Hf & Hi & Hrest).
+  exists i, d. split; [exact Hf|]. split; [exact Hi|].
+  cbn zeta in Hrest. rewrite (deliverable_fits d (Hu i d Hf)) in Hrest. exact Hrest.
 Qed.
 
 (** a concrete honest exchange: connect answered on the 2nd send, announce on the 3rd, two IPv4 peers
@@ -702,7 +720,7 @@ Lemma example_valid_replies :
   first_answer [None; Some ex_connect_reply] = Some (1%nat, ex_connect_reply) /\
   valid_reply 16 0 5 (firstn connect_buf ex_connect_reply) /\
   first_answer [None; None; Some ex_announce_reply] = Some (2%nat, ex_announce_reply) /\
-  valid_reply 20 1 7 ex_announce_reply /\ ~ oversize ex_announce_reply /\
+  valid_reply 20 1 7 ex_announce_reply /\ udp_deliverable ex_announce_reply /\
   ((length ex_announce_reply - 20) mod stride false = 0)%nat.
 Proof.
   split; [reflexivity|]. split.
@@ -710,7 +728,7 @@ Proof.
   split; [reflexivity|]. split.
   { unfold valid_reply. split; [apply Nat.leb_le; reflexivity|split; reflexivity]. }
   split; [|reflexivity].
-  unfold oversize. apply Nat.nlt_ge. apply Nat.leb_le. vm_compute. reflexivity.
+  unfold udp_deliverable. apply Nat.leb_le. vm_compute. reflexivity.
 Qed.
 
 (** rejected replies: stale transaction id, error action, truncated header, ragged peer list, empty datagram *)
